@@ -261,6 +261,7 @@ type upOutcome struct {
 	accepted bool
 	status   string
 	infra    string // non-empty: harness/transport trouble (inconclusive, not a verdict)
+	env      bool   // refused with a status that blames the server's environment (5xx, Internal, ResourceExhausted, storage text)
 }
 
 func (w *world) casPut(b []byte) error {
@@ -311,13 +312,45 @@ func (w *world) upload(key string, st step, wr wire) upOutcome {
 		if c == codes.DeadlineExceeded || c == codes.Unavailable || c == codes.Canceled {
 			return upOutcome{infra: "UpdateActionResult: " + err.Error()}
 		}
-		return upOutcome{accepted: err == nil, status: c.String()}
+		o := upOutcome{accepted: err == nil, status: c.String()}
+		if err != nil {
+			o.status += " " + trunc(err.Error(), 120)
+			// a refusal that speaks about storage, not about the message
+			o.env = c == codes.Internal || c == codes.ResourceExhausted || c == codes.Aborted || (c == codes.Unknown && storageText(err.Error()))
+		}
+		return o
 	}
 	res := w.srv.HTTPPut("/ac/"+key, wr.body, wr.hdr)
 	if res.Err != nil {
 		return upOutcome{infra: "HTTP PUT: " + res.Err.Error()}
 	}
-	return upOutcome{accepted: res.Status >= 200 && res.Status < 300, status: fmt.Sprintf("%d %s", res.Status, trunc(strings.TrimSpace(string(res.Body)), 120))}
+	return upOutcome{accepted: res.Status >= 200 && res.Status < 300, env: res.Status >= 500,
+		status: fmt.Sprintf("%d %s", res.Status, trunc(strings.TrimSpace(string(res.Body)), 120))}
+}
+
+// storageText: an error text that names the storage layer (disk full, file
+// size limit, overload) rather than the uploaded message.
+func storageText(s string) bool {
+	s = strings.ToLower(s)
+	for _, w := range []string{"no space", "file too large", "too many open files", "disk", "overload", "reserve", "input/output error", "read-only file system", "tempfile", "temp file", "quota"} {
+		if strings.Contains(s, w) {
+			return true
+		}
+	}
+	return false
+}
+
+// envCode: a gRPC read answered with a code that servers use for their own
+// trouble (storage, internal errors), not for "this key has no valid entry".
+func envCode(c codes.Code, err error) bool {
+	switch c {
+	case codes.Internal, codes.Unknown, codes.Aborted, codes.DataLoss:
+		return true
+	case codes.ResourceExhausted:
+		// the client's own message limit is a property of the reply (judged); the server's ResourceExhausted is storage
+		return err == nil || !strings.Contains(err.Error(), "received message larger than max")
+	}
+	return false
 }
 
 // ---------------------------------------------------------------------------
@@ -549,6 +582,13 @@ func (w *world) checkCAS(v *vctx, acc *accepted, path string, checks []casCheck)
 	}
 }
 
+func slotName(s *slot) string {
+	if s.fileIdx >= 0 {
+		return fmt.Sprintf("output_files[%d]", s.fileIdx)
+	}
+	return s.name
+}
+
 func slotClass(s string) string {
 	if strings.HasPrefix(s, "output_files") {
 		return "output_file"
@@ -589,6 +629,23 @@ func (w *world) judgeHit(v *vctx, acc *accepted, path string, got *pb.ActionResu
 		problems = append(problems, fmt.Sprintf("%d bytes inlined, more than the inlining budget of %d", inlined, inlineBudget))
 	}
 	if len(problems) > 0 {
+		// "returned inline although not requested" is what a server does when it
+		// could not store the bytes in the CAS (it then keeps them inline on
+		// purpose). Ask the storage directly: if the harness's own Put of the
+		// same bytes fails as well, the environment is the cause and nothing is judged.
+		for _, p := range problems {
+			if !strings.Contains(p, "not requested") {
+				continue
+			}
+			for _, s := range acc.info.slots {
+				if len(s.content) > 0 && strings.HasPrefix(p, slotName(s)+":") {
+					if err := w.casPut(s.content); err != nil {
+						r.Inconclusive(fmt.Sprintf("%s on %s kept inline and the CAS refuses the same bytes (%v): storage trouble, not judged", slotName(s), path, err))
+						return
+					}
+				}
+			}
+		}
 		cls := "message-differs"
 		for _, p := range problems {
 			switch {
@@ -637,6 +694,8 @@ func (w *world) checkPresent(v *vctx, acc *accepted, rng *rand.Rand, full bool) 
 	switch {
 	case g.Err != nil || g.BodyErr != nil:
 		r.Inconclusive(fmt.Sprintf("HTTP GET failed: %v %v", g.Err, g.BodyErr))
+	case g.Status >= 500:
+		r.Inconclusive(fmt.Sprintf("HTTP GET answered %d %s: server-side trouble, not judged", g.Status, trunc(string(g.Body), 100)))
 	case g.Status != 200:
 		w.miss(v, acc, "http-get", fmt.Sprintf("status %d %s", g.Status, trunc(string(g.Body), 100)))
 	default:
@@ -675,9 +734,14 @@ func (w *world) checkPresent(v *vctx, acc *accepted, rng *rand.Rand, full bool) 
 	// HTTP HEAD
 	h := w.srv.HTTPHead("/ac/" + v.key)
 	r.Eval()
-	if h.Err == nil && h.Status != 200 {
+	switch {
+	case h.Err != nil:
+		r.Count("http-head.transport-error")
+	case h.Status >= 500:
+		r.Inconclusive(fmt.Sprintf("HTTP HEAD answered %d: server-side trouble, not judged", h.Status))
+	case h.Status != 200:
 		w.miss(v, acc, "http-head", fmt.Sprintf("status %d", h.Status))
-	} else {
+	default:
 		r.Count("hit.http-head")
 	}
 
@@ -702,6 +766,8 @@ func (w *world) checkPresent(v *vctx, acc *accepted, rng *rand.Rand, full bool) 
 				}
 			}
 		}
+	case gj.Status >= 500:
+		r.Inconclusive(fmt.Sprintf("HTTP GET json answered %d %s: server-side trouble, not judged", gj.Status, trunc(string(gj.Body), 100)))
 	case gj.Status != 200:
 		w.miss(v, acc, "http-get-json", fmt.Sprintf("status %d %s", gj.Status, trunc(string(gj.Body), 100)))
 	default:
@@ -809,6 +875,10 @@ func (w *world) grpcRead(v *vctx, acc *accepted, rng *rand.Rand, q inlineReq, si
 	case codes.DeadlineExceeded, codes.Unavailable, codes.Canceled:
 		r.Inconclusive("GetActionResult: " + err.Error())
 	default:
+		if envCode(c, err) {
+			r.Inconclusive(fmt.Sprintf("GetActionResult answered %v for a key with an accepted upload: server-side trouble, not judged", err))
+			return
+		}
 		cls := "miss-after-accepted-upload"
 		if c == codes.ResourceExhausted {
 			cls = "reply-exceeds-grpc-message-limit"
@@ -888,6 +958,13 @@ func (w *world) runSeq(c *seqCase) {
 		}
 		r.Sample(map[string]any{"case": c.id, "step": i, "message": info.id, "kind": kind, "encoding": wr.descr, "status": out.status, "config": w.cfg, "slots": slotSummary(info)})
 
+		if !out.accepted && expectAccept && out.env {
+			// 5xx / Internal / ResourceExhausted / storage text: the server blames its environment (disk full, file size
+			// limit), not the message; the statement does not oblige a server to accept under those conditions
+			r.Count("upload." + st.enc.String() + ".well-formed.refused-by-environment")
+			r.Inconclusive(fmt.Sprintf("upload via %s of a well-formed message was refused with %s: server-side trouble, not judged", wr.descr, out.status))
+			return
+		}
 		if out.accepted != expectAccept {
 			if out.accepted {
 				r.Violation("C11:"+st.enc.String()+":"+kind+":ill-formed-upload-accepted",
@@ -1037,7 +1114,8 @@ func (w *world) runRaw(c *rawCase) {
 				continue
 			}
 		} else if !ok {
-			r.Violation("C11:raw:"+enc+":put-refused", fmt.Sprintf("validation disabled: PUT of %d arbitrary bytes (%s) answered %d %s", len(st.data), st.kind, p.Status, trunc(string(p.Body), 100)), v.detail(nil))
+			// the statement does not say that every RAW upload has to be accepted: observation (raw.put.<kind>.<enc>.<status>)
+			r.Count("raw.put-refused." + enc)
 			return
 		}
 		cur = st.data
@@ -1052,6 +1130,8 @@ func (w *world) runRaw(c *rawCase) {
 			r.Inconclusive(fmt.Sprintf("RAW GET: %v %v", g.Err, g.BodyErr))
 		case len(cur) == 0 && g.Status == 404:
 			r.Count("raw.get.empty-value-404")
+		case g.Status >= 500:
+			r.Inconclusive(fmt.Sprintf("RAW GET answered %d: server-side trouble, not judged", g.Status))
 		case g.Status != 200:
 			r.Violation("C11:raw:"+enc+":miss-after-put", fmt.Sprintf("validation disabled: GET after accepted PUT answers %d", g.Status), v.detail(nil))
 		case !bytes.Equal(g.Body, cur):
@@ -1064,10 +1144,11 @@ func (w *world) runRaw(c *rawCase) {
 		switch {
 		case h.Err != nil:
 		case len(cur) == 0 && h.Status == 404:
+		// HEAD and its Content-Length are not mentioned by the statement: observations
 		case h.Status != 200:
-			r.Violation("C11:raw:"+enc+":head-miss-after-put", fmt.Sprintf("validation disabled: HEAD after accepted PUT answers %d", h.Status), v.detail(nil))
+			r.Count(fmt.Sprintf("raw.head.status-%d-after-put", h.Status))
 		case h.Header.Get("Content-Length") != strconv.Itoa(len(cur)):
-			r.Violation("C11:raw:"+enc+":head-size-differs", fmt.Sprintf("validation disabled: HEAD reports Content-Length %q for a %d byte value", h.Header.Get("Content-Length"), len(cur)), v.detail(nil))
+			r.Count("raw.head.content-length-differs")
 		default:
 			r.Count("raw.head.ok")
 		}
@@ -1306,6 +1387,9 @@ func run(r *lib.Run) {
 	r.Assume("the inlining budget of GetActionResult is 3 MiB (documented next to maxInlineSize) and a reply must fit gRPC's default 4 MiB message limit: reads use a client with default limits")
 	r.Assume("every blob a hit depends on (C06) is stored beforehand, so a miss after an accepted upload has no C06 excuse")
 	r.Assume("zstd-wrapped HTTP uploads carry X-Digest-SizeBytes = uncompressed length (the documented protocol for compressed PUTs)")
+	r.Assume("the disk view reads ac.v2/<xx>/<key>-* as the bare serialised ActionResult (the current on-disk encoding of action-cache entries); a release that changed that encoding would need another reader here")
+	r.Assume("'validation enabled/disabled' in the quantifier is the HTTP switch --disable_http_ac_validation (RAW part); gRPC with --disable_grpc_ac_deps_check (the stored message returned verbatim, no inlining / de-inlining / budget) is outside this check")
+	r.Assume("refusals and failed reads that blame the server's environment (HTTP 5xx, gRPC Internal / Unknown / ResourceExhausted other than the client's message limit) are inconclusive, never verdicts; bytes kept inline although not requested are judged only when the harness's own CAS Put of the same bytes succeeds")
 
 	p := buildPlan(r)
 
